@@ -377,6 +377,7 @@ class Connection:
             return self.exec_call(ast, cache, frame, routine)
         if tag == 'start':
             hook = self.db.preempt_hook
+            self.preempt_point = 'start-transaction'
             if hook is not None and self.depth == 1:
                 # START TRANSACTION inside a top-level CALL implicitly commits whatever transaction the session had open
                 # (releasing its locks) before the new one starts: whatever the procedure read before this point is held
@@ -764,8 +765,10 @@ class Connection:
         r = db.routines.get(('PROCEDURE', name.lower()))
         if r is None:
             raise OperationalError(1305, f'PROCEDURE batch.{name} does not exist')
-        if self.depth == 0:
+        if self.depth == 0 and db.preempt_hook is None:
             self.need_lock()  # a CALL is one atomic step (DESIGN 2.2)
+        # (with a preemption hook installed the lock is taken lazily - by the procedure's first locking read or write, as InnoDB
+        #  does - so that the hook can be offered the points at which another session could really commit)
         if len(args) != len(r.params):
             raise OperationalError(1318, f'Incorrect number of arguments for PROCEDURE batch.{name}; expected {len(r.params)}, got {len(args)}')
         info = routine.info if routine is not None else None
@@ -935,6 +938,12 @@ class Connection:
             cache = routine.cache[id(node)] = {}
         if tag in ('start', 'commit', 'rollback') and routine.kind != 'PROCEDURE':
             raise OperationalError(1422, 'Explicit or implicit commit is not allowed in stored function or trigger.')
+        hook = db.preempt_hook
+        if hook is not None and self.depth == 1 and routine.kind == 'PROCEDURE' and self.in_txn and db.lock_owner is not self and not self.wrote and tag != 'start':
+            # inside the procedure's transaction, but so far it has only made non-locking reads (no FOR UPDATE / LOCK IN SHARE MODE,
+            # no write): it holds no lock, so another session can commit here before this statement runs
+            self.preempt_point = 'before-a-statement-while-holding-no-lock'
+            hook(self, routine)
         try:
             self.exec_stmt(node, cache, frame, routine)
         except NotFound:
